@@ -69,10 +69,24 @@ pub fn policy(_tier: Tier, w: &Arc<World>) -> Scn {
     let n = 2 + d.range("swarm.requests", 5) as usize;
     let mut reqs: Vec<ReqInfo> = vec![];
     let mut desc = format!("policy {} distinct_dirs={distinct} requests=[", srv.describe());
+    // names that make the refusal text long, with a multi-byte character at every alignment
+    let long_names: Vec<String> = (0..4).map(|k| format!("{}{}", "a".repeat(k), "\u{e9}".repeat(228))).collect();
     for i in 0..n {
-        let write = d.chance("swarm.req.write", 1, 2);
-        let name = d.pick("swarm.req.name", &names);
-        let oc = draw_options(&d, false, None);
+        let mut write = d.chance("swarm.req.write", 1, 2);
+        let mut name: &str = d.pick("swarm.req.name", &names);
+        if !srv.overwrite && d.chance("swarm.req.directory_target", 1, 12) {
+            // a write request that names an existing directory: refused, nothing starts
+            write = true;
+            name = d.pick("swarm.req.directory", &["sub", "sub/"]);
+        } else if d.chance("swarm.req.long_name", 1, 16) {
+            write = false;
+            name = long_names[d.range("swarm.req.long_name.align", 4) as usize].as_str();
+        }
+        let mut oc = draw_options(&d, false, None);
+        if name.len() > 200 {
+            // a request datagram is at most 512 octets (RFC 2347): the long names travel without options
+            oc.opts.clear();
+        }
         let len = d.pick("swarm.req.len", &[300usize, 0, 1, 512, 700, 5000, 1024, 2100]);
         let data = Arc::new(content(len, 40 + i as u64));
         let mut xc = XferCfg::new(srv.addr(), name);
@@ -82,7 +96,7 @@ pub fn policy(_tier: Tier, w: &Arc<World>) -> Scn {
                 o.1 = if write { len.to_string() } else { "0".into() };
             }
         }
-        if d.chance("swarm.req.unhonourable_option", 1, 6) {
+        if name.len() <= 200 && d.chance("swarm.req.unhonourable_option", 1, 6) {
             // the policy decision must not depend on whether the options could be honoured
             let (k, v) = d.pick("swarm.req.bad_option", &[("timeout", "0"), ("windowsize", "0"), ("blksize", "4"), ("blksize", "65465"), ("windowsize", "65536")]);
             xc.opts.retain(|(n, _)| n != k);
@@ -193,8 +207,9 @@ pub fn confine(_tier: Tier, w: &Arc<World>) -> Scn {
     sandbox.dir("outer/recv/sub");
     sandbox.write("outer/etc/passwd", &content(128, 108));
     let served = sandbox.root.join("outer/served");
-    let recvd = sandbox.root.join("outer/recv");
     let distinct = d.chance("swarm.distinct_dirs", 1, 2);
+    // the receive directory may hold nothing at all (nested below an otherwise empty directory)
+    let recvd = if distinct && d.chance("swarm.empty_recv_dir", 1, 3) { sandbox.dir("outer/incoming/spool") } else { sandbox.root.join("outer/recv") };
     let mut srv = base_cfg(&d, &served);
     // which of -d / -sd / -rd name the two directories: a directory not named falls back to -d
     let layout = if distinct { d.range("swarm.dir_layout", 3) } else { 0 };
@@ -220,7 +235,7 @@ pub fn confine(_tier: Tier, w: &Arc<World>) -> Scn {
     let spell = |p: &std::path::Path| -> std::path::PathBuf {
         match spelling {
             1 => p.strip_prefix(crate::common::process_base()).map(|x| x.to_path_buf()).unwrap_or_else(|_| p.to_path_buf()),
-            2 => std::path::PathBuf::from(if p == served.as_path() { "../" } else { "../../recv/" }),
+            2 => std::path::PathBuf::from(if p == served.as_path() { "../".to_string() } else { format!("../../{}/", p.strip_prefix(sandbox.root.join("outer")).unwrap().display()) }),
             _ => p.to_path_buf(),
         }
     };
@@ -361,7 +376,8 @@ pub fn options(_tier: Tier, w: &Arc<World>) -> Scn {
         Some(l) if expect_oack => l,
         _ => len.min(eff_b * 300),
     };
-    let data = Arc::new(content(len, 7));
+    let mode = if d.chance("swarm.mode.varied", 1, 5) { crate::common::draw_mode(d.range("swarm.mode", 12)) } else { "octet" };
+    let data = Arc::new(if !mode.eq_ignore_ascii_case("octet") && d.chance("swarm.content.texty", 1, 2) { crate::common::content_texty(len, 7, eff_b) } else { content(len, 7) });
     let tmo_s: u64 = if expect_oack { rec.iter().rev().find(|(k, _)| k == "timeout").and_then(|(_, v)| numeric(v)).map(|x| x as u64).unwrap_or(5) } else { 5 };
     let mut fname = "data.bin";
     let path = dir.join("data.bin");
@@ -375,6 +391,7 @@ pub fn options(_tier: Tier, w: &Arc<World>) -> Scn {
     }
     let mut xc = XferCfg::new(srv.addr(), fname);
     xc.opts = opts.clone();
+    xc.mode = mode.to_string();
     xc.timeout_ns = tmo_s.min(100_000) * SEC * 3 / 2;
     xc.resend_request = false;
     xc.retries = 3;
@@ -400,7 +417,7 @@ pub fn options(_tier: Tier, w: &Arc<World>) -> Scn {
         };
         xc.script.push((step, Adv::Silent));
     }
-    let desc = format!("options {} {} len={len} opts={opts:?} expect_oack={expect_oack} silent={silent} per_block_ack={}", srv.describe(), if write { "WRQ" } else { "RRQ" }, xc.per_block_ack);
+    let desc = format!("options {} {} mode={mode} len={len} opts={opts:?} expect_oack={expect_oack} silent={silent} per_block_ack={}", srv.describe(), if write { "WRQ" } else { "RRQ" }, xc.per_block_ack);
     let kind = if write { Kind::Upload } else { Kind::Download };
     let (peer, client) = if write { w.add_peer(Box::new(Writer::new(xc, data.to_vec())), srv.v6, 0) } else { w.add_peer(Box::new(Reader::new(xc)), srv.v6, 0) };
     w.add_monitor(Box::new(OptMon::new(client, write, opts, len as u64)));
@@ -535,9 +552,11 @@ pub fn hostile(_tier: Tier, w: &Arc<World>) -> Scn {
         scripts[src].push((at, Target::Addr(srv.addr()), bytes));
     }
     let horizon = 10 * MS + ndg as Ns * 100 * SEC;
+    let mut hostile_peers = vec![];
     for s in scripts {
         let (p, _) = w.add_peer(Box::new(Scripted::new("hostile-datagram", s)), srv.v6, 0);
         w.start_peer(p);
+        hostile_peers.push(p);
     }
     // a legitimate transfer in flight while the hostile datagrams arrive (its state could be poisoned)
     let mut probes = vec![];
@@ -564,7 +583,12 @@ pub fn hostile(_tier: Tier, w: &Arc<World>) -> Scn {
     let nprobe = 1 + d.range("swarm.probes", 2) as usize;
     for k in 0..nprobe {
         let xc = XferCfg::new(srv.addr(), "probe.bin");
-        let (p, _) = w.add_peer(Box::new(Reader::new(xc)), srv.v6, 0);
+        // the last probe may come from a socket that misbehaved before: its valid request counts like any other
+        let (p, _) = if k + 1 == nprobe && d.chance("probe.from_hostile_source", 1, 2) {
+            w.add_peer_on(Box::new(Reader::new(xc)), hostile_peers[d.range("probe.hostile_source", hostile_peers.len() as u32) as usize])
+        } else {
+            w.add_peer(Box::new(Reader::new(xc)), srv.v6, 0)
+        };
         let at = if k + 1 == nprobe { horizon + 4000 * SEC } else { 10 * MS + d.range("probe.at", ndg as u32 + 1) as Ns * SEC + 500 * MS };
         w.start_peer_at(p, at);
         probes.push((p, probe_data.clone()));
